@@ -171,7 +171,16 @@ def run_case(case):
     reinst = None
     try:
         if case["top_kind"] == "annot":
-            if rng.random() < 0.5:
+            x_ = rng.random()
+            if x_ < 0.25:
+                # a base class with other annotations is defined and instantiated FIRST; the subclass declares its own
+                base_fields = {"zz_base": csr.Field(ProbeAction, unsigned(3), "rw" if access == "rw" else access),
+                               "yy_base": [csr.Field(ProbeAction, unsigned(1), "rw" if access == "rw" else access)]}
+                base = type("AnnBase", (csr.Register,), {"__annotations__": base_fields}, access=access)
+                base()
+                cls = type("AnnDerived", (base,), {"__annotations__": dict(fields)})
+                reg = cls()
+            elif x_ < 0.5:
                 cls = type("AnnReg", (csr.Register,), {"__annotations__": dict(fields)}, access=access)
                 reg = cls()
             else:
